@@ -13,6 +13,8 @@
          if limit.used * 2 > limit.value: limit.value *= 2                                 -- BEFORE start_frame
          if limit.value != limit.sent: buf = builder.start_frame(...); ...; limit.sent = limit.value
      _write_stream_limits, per stream: the same shape with max_stream_data_local / _sent
+   (RAISE_BEFORE_START_FRAME, probed from the tree under test by tools/gen/c07_consts.py: true for this shape, false when
+   the value is assigned only after start_frame() returned)
    so a refused MAX_* frame leaves the raised value in force (it is the value every check reads) while nothing was
    advertised; .sent is only assigned after start_frame returned, i.e. when the frame is in the packet.
 
@@ -32,7 +34,8 @@ Fixpoint drain (q : list Z) (b : Z) : list Z * list Z * option Z :=
 Definition raise_limit_b (ft : Z) (l : limit) (b : Z) : limit * list wire * option Z :=
   let v := if l_used l * 2 >? l_value l then l_value l * 2 else l_value l in
   if negb (v =? l_sent l) then
-    if b <=? 0 then (mkLimit v (l_used l) (l_sent l), [], None)      (* start_frame raises: value raised, nothing written *)
+    if b <=? 0 then ((if RAISE_BEFORE_START_FRAME then mkLimit v (l_used l) (l_sent l) else l), [], None)
+                                                   (* start_frame raises; flag true: value already raised, nothing written *)
     else (mkLimit v (l_used l) v, [W ft 0 v], Some (b - 1))
   else (mkLimit v (l_used l) (l_sent l), [], Some b).
 
@@ -43,7 +46,7 @@ Fixpoint raise_streams_b (l : list (Z * strm)) (b : Z) : list (Z * strm) * list 
   | (sid, s) :: t =>
       let v := if negb (sm_msd s =? 0) && (r_highest (sm_recv s) * 2 >? sm_msd s) then sm_msd s * 2 else sm_msd s in
       if negb (sm_sent s =? v) then
-        if b <=? 0 then ((sid, mkStrm v (sm_sent s) (sm_sendfin s) (sm_recv s)) :: t, [], None)
+        if b <=? 0 then ((sid, if RAISE_BEFORE_START_FRAME then mkStrm v (sm_sent s) (sm_sendfin s) (sm_recv s) else s) :: t, [], None)
         else let '(t', w', r) := raise_streams_b t (b - 1) in
              ((sid, mkStrm v v (sm_sendfin s) (sm_recv s)) :: t', W FT_MAX_STREAM_DATA sid v :: w', r)
       else let '(t', w', r) := raise_streams_b t b in
